@@ -62,8 +62,9 @@ func Schema(t *rapid.T, o SchemaOpts) map[string]any {
 		}
 	}
 	root := g.node(g.o.MaxDepth, false)
-	if _, isRef := root["$ref"]; isRef && len(defs) > 0 {
-		// keep the root sibling-free too: wrap
+	if _, isRef := root["$ref"]; isRef && len(defs) > 0 && g.coin("wraprootref", 2) {
+		// half of the time the root reference is wrapped; otherwise the root is the bare reference, with the
+		// definitions it points into as its only sibling (the usual way of writing a schema whose root is a definition)
 		root = map[string]any{"allOf": []any{root}}
 	}
 	if len(defs) > 0 {
